@@ -179,6 +179,49 @@ def run(tier, seed, replay=None):
         for sp in (f'"{name}" a', f"'{name}' a", f'{name[:1]}""{name[1:]} a', f"\\{name} a", f"${{X:-{name}}} a", f"$(echo {name}) a",
                    f"$X{name} a", f"`echo {name}` a", f"{name}$'' a", f"eval {name}", f"exec {name}"):
             judge_text(sp, "odd-spelling")
+    # --- context independence: an unknown program stays unknown whatever was defined, bound, queried or run before it on
+    # the same command line.  Every approved text is RUN under real bash in a jail whose PATH holds a stub `frobnicate`
+    # that logs its argv: approved and the program frobnicate ran = the property fails (a function of that name that
+    # really shadows the program - `frobnicate() { true; }; frobnicate x` - runs no program and is not a violation)
+    from .jail import Jail
+    n_ = "frobnicate"
+    binders = ["{n}() { true; }", "function {n} { true; }", "{n}() ( true )", "{n}() { true; } > /dev/null", "alias {n}=ls", "{n}=ls", "export {n}=ls",
+               "declare -f {n}", "unset -f {n}", "type {n}", "command -v {n}", "hash {n}", "true", "ls"]
+    shapes = ["{B}; {C}", "{B}\n{C}", "{B} && {C}", "{B} || {C}", "{B} & {C}", "{B} | {C}", "false && {B}; {C}", "true || {B}; {C}", "( {B} ); {C}",
+              "echo $({B}); {C}", "{B}; ( {C} )", "{B}; timeout 5 {C}", "{B}; nohup {C}", "{B}; command {C}", "{B}; env {C}", "{B}; time {C}",
+              "{B}; nice {C}", "{B}; echo $({C})", "{B}; ls | {C}", "if false; then {B}; fi; {C}", "{B}; {B}; {C}", "{B}; unset -f {n}; {C}",
+              "{B}; {n}2 x", "{B}; ./{n} x", "{B}; sh -c '{C}'", "{B}; bash -c '{C}'", "{B}; xargs {C}", "{B}; X=1 {C}", "{C}; {B}", "{B}; { {C}; }",
+              "{B}; if true; then {C}; fi", "{B}; for v in a; do {C}; done", "{B}; while {C}; do ls; done", "{B}; ! {C}", "{B}; {C} &", "{B}; coproc {C}"]
+    jail = Jail(bx.STUBS, real_tools=["timeout", "nohup", "env", "nice", "xargs"])
+    jcfg = parse_config('deny zap "NOZAP"\nallow okcmd\n')
+    try:
+        for b_, sh_ in itertools.product(binders, shapes):
+            text = sh_.replace("{B}", b_).replace("{C}", f"{n_} --wipe x").replace("{n}", n_)
+            try:
+                impl = lib.with_timeout(lambda: an.analyze(text, jcfg, Path(jail.cwd)).action, 3.0)
+            except Exception:
+                impl = "exception"
+            out.case(["context", text])
+            out.count("stream", "context")
+            out.count("verdict", impl)
+            if impl != "exception":
+                try:
+                    mv = model_analyze(model, jcfg, text, jail.cwd)
+                    if mv != impl:
+                        out.disagreements.append({"correspondence": "Walker.analyze_nodes <-> analyzer.analyze", "program": text, "model": mv, "impl": impl})
+                except lib.ModelError:
+                    pass
+            if impl == "allow":
+                ran = []
+                for mode in ("alt", "0"):
+                    log, _changed, _status, _err = jail.run(text, mode)
+                    ran += [rec for rec in log if rec and rec[0].split(":")[-1].startswith(n_)]
+                out.count("ground_truth", "ran")
+                if ran:
+                    out.violations.append({"kind": "unknown-ran", "what": f"approved, and running it under bash executed the unknown program: {ran[0]}",
+                                           "program": text, "signature_text": text})
+    finally:
+        jail.close()
     for text in ["", " ", "\t\n", "\n\n", ";", ";;", "&", "|", "&&", "(", ")", "{", "}", "((", "[[", "if", "then", "fi", "do", "done", "esac",
                  "'", '"', "`", "$(", "${", "$((", "<", ">", "<<", "<<<", "\\", "#", "!", "ls |", "ls &&", "ls ||", "if ls", "while ls; do",
                  "for x in", "case x in", "ls )", "( ls", "{ ls", "ls }", "echo $(", "echo ${x", "echo `ls", "cat <<EOF", "fn() {", "[[ -f x",
